@@ -264,7 +264,25 @@ def apply_op(world, op, args):
             return getattr(a, params[0])
         if name == 'index':
             return a[tuple(params)] if len(params) != 1 else a[params[0]]
+        if name == 'map':
+            return a.map(lambda v: 2 * v) if not params else a.map(lambda k, v: (k + 1) * v)
+        if name == 'asmatrix':
+            return a.asmatrix()
         return getattr(a, name)()       # norm, normalized, exp, filter, ...
+    if kind == 'algprop':
+        # objects the algebra hands out (cached basis blades, frames): they are shared with every caller
+        name = op['op']
+        if name == 'pss':
+            return alg.pss
+        if name == 'frame':
+            return list(alg.frame)
+        if name == 'reciprocal_frame':
+            return list(alg.reciprocal_frame)
+        if name == 'blade':
+            return alg.blades[op['params'][0]]
+        if name == 'blades_grade':
+            return list(alg.blades.grade(*op['params']).values())
+        raise ValueError(name)
     if kind == 'reg':
         if op['fn'] not in world.ns[ai]:
             for b in bodies.closure([op['fn']]):
@@ -301,6 +319,10 @@ def normalise(res):
         return ('seq', type(res).__name__, [normalise(r) for r in res])
     if type(res).__name__ == 'TapeRecorder':
         return ('val', f'TapeRecorder({res.expr})')
+    if isinstance(res, np.ndarray):
+        return ('val', res.copy())
+    if isinstance(res, sympy.MatrixBase):
+        return ('val', [sympy.sympify(x) for x in res])
     return ('val', res)
 
 
